@@ -1,3 +1,4 @@
+import Oidc.Shapes
 import Oidc.Proofs.Limiter2
 import Oidc.Proofs.Verify
 import Oidc.Facts
@@ -74,5 +75,10 @@ example : Limiter.Inv (10 * U) (init 10) := by simp [Limiter.Inv, init, U]
 example : (run 10 (10 * U) ⟨0, 0⟩ ((List.range 30).map (fun (i : Nat) => ((i : Int) + 1) * 33333333))).2 = 9 := by decide
 example : Dense 33333333 0 ((List.range 30).map (fun (i : Nat) => ((i : Int) + 1) * 33333333)) := by
   simp only [Dense, List.range, List.range.loop, List.map]; decide
+
+/-! obligations against the regenerated program text: the functions these theorems rest on read, statement for statement, as
+    they did when the model was written after them (`Oidc/Shapes.lean`) -/
+theorem text_TraefikOidc_VerifyToken_ok : Oidc.Shapes.Text_TraefikOidc_VerifyToken := by unfold Oidc.Shapes.Text_TraefikOidc_VerifyToken; rfl
+theorem text_TraefikOidc_performPreVerificationChecks_ok : Oidc.Shapes.Text_TraefikOidc_performPreVerificationChecks := by unfold Oidc.Shapes.Text_TraefikOidc_performPreVerificationChecks; rfl
 
 end Oidc.Props.C19
